@@ -1,22 +1,50 @@
 """C03 -- hybrid metafile: the v1 view and the v2 view describe the same payload."""
 from props import v2_common as V
+from props import creators_common as cc
 
 GEN_FILES = []
-EXTRA_TARGETS = ["Extract/ExtractV2.vo"]
-AREAS = ["v2"]
+EXTRA_TARGETS = ["Extract/ExtractV2.vo", "Extract/ExtractCreators.vo"]
+AREAS = ["v2", "creators"]
+CREATOR_KINDS = ["hybrid-class", "hybrid-asm"]      # hybrid_output of the theorems
+# Appendix B "creators" classes plus the padding boundaries of the hybrid files list
+CREATOR_CLASSES = cc.REQUIRED_CLASSES + ["file size = k*pl (no padding entry)", "empty file", "empty file last"]
 RULE = ("model tie: the extracted Coq models of HasherHybrid (padding on/off) and FileHasher (hybrid x padding, iterated to "
         "exhaustion) vs the real classes on one file per case -- v1 piece digests (the model returns the SHA-1 inputs, the driver "
         "hashes them), padding_file and the yielded pieces are compared (C02 compares root and layer); same cases as C02: the "
         "boundary set with the real BLOCK_SIZE, and the patched_constant small scope (exhaustive in the thorough tier).  Every "
         "real hybrid hasher is also compared with reference SHA-1 piece hashing of the file (padding off) or of the file followed "
         "by zeros up to the piece boundary (padding on) and with the expected pad length.  End to end: TorrentFileHybrid, "
-        "TorrentAssembler (meta version 3) and `create --meta-version 3` on generated trees; the written metafile is decoded by the "
+        "TorrentAssembler (meta version 3) and `create --meta-version 3` on generated trees; the written metafile is decoded by"
+        " the "
         "reference strict decoder: non-padding entries of info.files = file-tree leaves (order, lengths) = disk, every non-padding "
         "entry starts on a piece boundary of the listed stream, padding entries have attr p and path [.pad, <len>], info.pieces = "
-        "reference SHA-1 piece hashing of that stream with padding as zeros; single file: info.length = size, no files list, pieces "
+        "reference SHA-1 piece hashing of that stream with padding as zeros; single file: info.length = size, no files list, "
+        "pieces "
         "= hashing of the file alone.  A case is non-trivial when it is distinct and hits at least one boundary class.")
-TRUSTED_BASE = V.TRUSTED_BASE
-ASSUMPTIONS = V.ASSUMPTIONS
+RULE += ("  Unit correspondence of Model/Creators.v (the creator-level theorems rest on it): TorrentFileHybrid and "
+         "TorrentAssembler (meta version 3), both on every tree, write a metafile for "
+         "generated content trees (single file / flat / nested to depth 3 / a directory next to a sibling whose name sorts between "
+         "it and its children / identical files / >= 2 multi-piece files / empty directories / names differing only in case / "
+         "non-ASCII names; sizes from {0,1,B+-1,B,pl+-1,pl,2pl+-1,...}), an option subset, one of 25 spellings of the path, a "
+         "patched "
+         "clock and the enumeration order of every directory fixed by a runner-side patch of os.listdir/os.scandir and handed to "
+         "the model as the order of its entry lists; the extracted creator composed with Model/Bencode.v encode predicts the BYTES "
+         "of the written file -- compared byte for byte.")
+TRUSTED_BASE = V.TRUSTED_BASE + [
+    "hand-written models Model/Creators.v (the _traverse / assemble methods of TorrentFileHybrid and TorrentAssembler, "
+    "MetaFile.__init__, sort_meta), Model/Bencode.v (pyben's encoder) and Spec/PathSem.v (name and path "
+    "components from the path string) tied to torrent.py by differential execution: extracted OCaml vs the BYTES the creator "
+    "writes, under a controlled enumeration order (runner-side patch of os.listdir/os.scandir; Path.iterdir of CPython 3.12 calls "
+    "os.listdir), a patched clock (torrentfile.torrent.datetime) and, for cases marked patched_constant, a patched "
+    "torrentfile.hasher.BLOCK_SIZE",
+]
+ASSUMPTIONS = [a for a in V.ASSUMPTIONS if not a.startswith("creator-level statements")] + [
+    "creator-level theorems (Props file, from Proofs/CreatorsProofs*.v) are about Model/Creators.v, which the unit correspondence "
+    "ties to torrent.py byte for byte; the same statements are also checked end to end against the reference oracle",
+    "file names are valid UTF-8 without '/', distinct per directory (wf_node); the payload contains at least one file",
+]
+
+UNIT_N = (72, 600)          # content trees of the creators unit correspondence (quick, thorough)
 
 
 def run(ctx, model_ok):
@@ -26,7 +54,13 @@ def run(ctx, model_ok):
     if ctx.tier == "thorough":
         ctx.exhaustive = True
     V.require_classes(ctx, V.REQUIRED_V2 + V.REQUIRED_CREATORS)
+    # the creators unit correspondence counts its own boundary classes (after the end-to-end requirement above)
+    quick = ctx.tier == "quick"
+    cc.unit_for(ctx, model_ok, CREATOR_KINDS, n=UNIT_N[0] if quick else UNIT_N[1], budget=90000 if quick else 300000,
+                required=CREATOR_CLASSES)
 
 
 def replay(ctx, data):
+    if data.get("disagreements") or data.get("broken") or "what" in data:
+        return cc.replay_disagreements(ctx, data, "C03")
     return V.replay_case(ctx, data, "C03")
